@@ -732,3 +732,49 @@ Proof.
   - intros Z. nra.
   - field_simplify_eq; [|split; lra]. rewrite R. ring.
 Qed.
+
+(* ------------------------------------------------------------------ statements used by Props.v *)
+Lemma draw_splits_unit_interval : forall strict q u, 0 <= u < 1 ->
+  (hitb strict q u = true -> u <= clamp01 q) /\ (hitb strict q u = false -> clamp01 q <= u) /\
+  (u < clamp01 q -> hitb strict q u = true) /\ (clamp01 q < u -> hitb strict q u = false).
+Proof.
+  intros strict q u U. repeat split.
+  - apply hit_interval; auto. - apply miss_interval; auto.
+  - apply below_hits; auto. - apply above_misses; auto.
+Qed.
+
+Lemma total_mass_init : forall s, mass (sdist s init 1) (fun _ => true) == 1.
+Proof. intros. apply sdist_total. Qed.
+
+Lemma facts_independent_init : forall fs a,
+  NoDup (map fst fs) -> (forall h, In h fs -> 0 <= snd h <= 1) ->
+  mass (factrun fs init 1) (assignb fs a) == aweight fs a.
+Proof. intros fs a ND PR. rewrite (facts_independent fs a init 1 ND); auto. ring. Qed.
+
+Lemma fact_drawn_once : forall st c p us v st' us',
+  c_p c = Some p -> step st c us = Some (v, st', us') ->
+  lookup (c_id c) (s_facts st') = Some v /\ forall us2, step st' c us2 = Some (v, st', us2).
+Proof.
+  intros st c p us v st' us' P H. pose proof (step_memoises _ _ _ _ _ _ _ P H) as L.
+  split; auto. intros us2. unfold step. rewrite (memo_const st' c p v P L). reflexivity.
+Qed.
+
+Lemma printed_weight_init : forall s st' w',
+  ok s init -> In (st', w') (sdist s init 1) -> w' == printed st'.
+Proof.
+  intros s st' w' OK H. apply (printed_weight s init 1); auto.
+  - constructor.
+  - reflexivity.
+Qed.
+
+(* the cut-off `r < 1e-8` makes a head with 0 < p < 1e-8 unreachable once the mass before it is used up *)
+Lemma cutoff_head_unreachable :
+  exists g heads h, In h heads /\ Qsum (map snd heads) <= 1 /\ (forall x, In x heads -> 0 <= snd x) /\
+    ~ mass (adrun g heads init 1) (chosenb (fst h)) == snd h.
+Proof.
+  exists 1%N, [(1%N, 999999995 # 1000000000); (2%N, 5 # 1000000000)], (2%N, 5 # 1000000000).
+  split; [right; left; reflexivity|]. split; [vm_compute; discriminate|].
+  split.
+  - intros x [X|[X|[]]]; subst; vm_compute; discriminate.
+  - vm_compute. discriminate.
+Qed.
